@@ -189,13 +189,19 @@ class case_alarm:
 
     def __init__(self, seconds):
         self.seconds = seconds
+        self.fired = False
 
     def _fire(self, signum, frame):
+        # The raise can land anywhere - e.g. inside the scheduler's own exception handling, where it
+        # resurfaces as an unrelated error (InvalidStateError on a finished future) that the check
+        # would take for the program's. `fired` lets the caller discard whatever the case concluded.
+        self.fired = True
         raise CaseTimeout()
 
     def __enter__(self):
         self.old = signal.signal(signal.SIGALRM, self._fire)
         signal.setitimer(signal.ITIMER_REAL, self.seconds)
+        return self
 
     def __exit__(self, *a):
         signal.setitimer(signal.ITIMER_REAL, 0)
